@@ -191,6 +191,11 @@ def step (st : St) (toks : List String) : St × String :=
       | some b => (st, oracleLoaded st h id b)
       | none => (st, "bad-op")
     | _, _, _ => (st, "bad-op")
+  | ["oracle", "ids", n, d] =>
+    -- binding ids identify bindings (the (crontab, id) pairs of the property are per binding)
+    match (kv? "bindings" [n]).bind String.toNat?, (kv? "distinct" [d]).bind String.toNat? with
+    | some n, some d => (st, if n == d then "true" else s!"false bindings={n} distinct-ids={d}")
+    | _, _ => (st, "bad-op")
   | ["queue", q] =>
     match q.toNat? with
     | some q => ({ st with queues := st.queues ++ [q] }, "ok")
